@@ -219,7 +219,8 @@ func (h *FBDNSDB) ServeDNSWithRCODE(ctx context.Context, w dns.ResponseWriter, r
 	}
 
 	if h.cacheConfig.Enabled {
-		cacheKey = fmt.Sprintf("%.3d%.3d%.3d%s", loc.LocID, state.QType(), state.QClass(), state.Name())
+		// fixed-width fields: type and class are 16-bit, %.3d would let a 4- or 5-digit value run into the next field
+		cacheKey = fmt.Sprintf("%.3d%.5d%.5d%s", loc.LocID, state.QType(), state.QClass(), state.Name())
 		if v, ok := h.lru.Get(cacheKey); ok {
 			t := v.(cacheEntry).expiration
 			if t < time.Now().Unix() {
